@@ -124,6 +124,8 @@ def main():
         do_import(a[1], int(a[2]), "out2", 2); return
     if a[0] == "import4":  # round 4: /tmp/wt/<ID>/out4/patchN -> seeded/<ID>-(N+6)
         do_import(a[1], int(a[2]), "out4", 6); return
+    if a[0] == "import11":  # round 11: /tmp/wt/<ID>/out11/patchN -> seeded/<ID>-(N+20)
+        do_import(a[1], int(a[2]), "out11", 20); return
     if a[0] == "import10":  # round 10: /tmp/wt/<ID>/out10/patchN -> seeded/<ID>-(N+18)
         do_import(a[1], int(a[2]), "out10", 18); return
     if a[0] == "import9":  # round 9: /tmp/wt/<ID>/out9/patchN -> seeded/<ID>-(N+16)
